@@ -1458,6 +1458,161 @@ func consolidateK(r *vh.Run, doc []byte, sp *sharedSpec) {
 	}
 }
 
+// ---- duplicates with normalisable extras
+
+// genExtrasDoc: k copies of one form XObject / image / soft-mask group form (same dict, same
+// bytes), some of them carrying an extra entry (/PieceInfo, /LastModified, /Metadata, /OC,
+// /StructParent(s)) with identical or different values; one copy per page or all on page 1.
+func genExtrasDoc(r *rand.Rand) ([]byte, string) {
+	b := &pdfb{}
+	cat := b.add("")
+	root := b.add("")
+	kind := pick(r, "form", "form", "form", "image", "smask")
+	extra := pick(r, "PieceInfo", "PieceInfo", "PieceInfo", "LastModified", "Metadata", "OC", "StructParent", "none")
+	mode := pick(r, "all", "all", "first", "last", "none")
+	differ := r.Intn(2) == 0
+	k := 2 + r.Intn(3)
+	onePage := r.Intn(3) == 0
+	ocgs := []string{}
+	extraFor := func(i int) string {
+		has := mode == "all" || (mode == "first" && i == 0) || (mode == "last" && i == k-1)
+		if !has || extra == "none" {
+			return ""
+		}
+		v := 0
+		if differ {
+			v = i
+		}
+		switch extra {
+		case "PieceInfo":
+			if kind == "image" {
+				return ""
+			}
+			return fmt.Sprintf("/PieceInfo << /App << /LastModified (D:2020010100000%dZ) /Private << /V %d >> >> >>", v, v)
+		case "LastModified":
+			if kind == "image" {
+				return ""
+			}
+			return fmt.Sprintf("/LastModified (D:2021010100000%dZ)", v)
+		case "Metadata":
+			xml := fmt.Sprintf("<?xpacket begin='' id='W5M0MpCehiHzreSzNTczkc9d'?><x:xmpmeta xmlns:x='adobe:ns:meta/'><v>%d</v></x:xmpmeta><?xpacket end='w'?>", v)
+			return fmt.Sprintf("/Metadata %d 0 R", b.stream("/Type /Metadata /Subtype /XML", []byte(xml)))
+		case "OC":
+			o := b.add(fmt.Sprintf("<< /Type /OCG /Name (L%d) >>", v))
+			ocgs = append(ocgs, fmt.Sprintf("%d 0 R", o))
+			return fmt.Sprintf("/OC %d 0 R", o)
+		}
+		if kind == "image" {
+			return fmt.Sprintf("/StructParent %d", v)
+		}
+		return fmt.Sprintf("/StructParents %d", v)
+	}
+	common := ""
+	if extra == "PieceInfo" && kind != "image" {
+		common = "/LastModified (D:20200101000000Z)" // required next to PieceInfo; the same on every copy
+	}
+	var copies []int
+	for i := 0; i < k; i++ {
+		e := extraFor(i)
+		switch kind {
+		case "form":
+			copies = append(copies, b.stream("/Type /XObject /Subtype /Form /BBox [0 0 10 10] /Resources << >> "+common+" "+e, []byte("0 0 5 5 re f")))
+		case "image":
+			copies = append(copies, b.stream("/Type /XObject /Subtype /Image /Width 2 /Height 2 /ColorSpace /DeviceGray /BitsPerComponent 8 "+e, []byte("\x10\x20\x30\x40")))
+		default:
+			copies = append(copies, b.stream("/Type /XObject /Subtype /Form /BBox [0 0 10 10] /Group << /S /Transparency /CS /DeviceGray >> /Resources << >> "+common+" "+e, []byte("0 0 5 5 re f")))
+		}
+	}
+	font := b.add("<< /Type /Font /Subtype /Type1 /BaseFont /Helvetica /Encoding /WinAnsiEncoding >>")
+	var kids []string
+	page := func(use []int) {
+		var content strings.Builder
+		content.WriteString("BT /F1 12 Tf (a) Tj ET ")
+		res := fmt.Sprintf("/Font << /F1 %d 0 R >> ", font)
+		if kind == "smask" {
+			res += "/ExtGState << "
+			for j, c := range use {
+				res += fmt.Sprintf("/GS%d << /Type /ExtGState /SMask << /Type /Mask /S /Luminosity /G %d 0 R >> >> ", j+1, c)
+				fmt.Fprintf(&content, "/GS%d gs ", j+1)
+			}
+			res += ">>"
+		} else {
+			res += "/XObject << "
+			for j, c := range use {
+				res += fmt.Sprintf("/X%d %d 0 R ", j+1, c)
+				fmt.Fprintf(&content, "q /X%d Do Q ", j+1)
+			}
+			res += ">>"
+		}
+		c := b.stream("", []byte(content.String()))
+		kids = append(kids, fmt.Sprintf("%d 0 R", b.add(fmt.Sprintf("<< /Type /Page /Parent %d 0 R /Resources << %s >> /Contents %d 0 R >>", root, res, c))))
+	}
+	if onePage {
+		page(copies)
+		page(copies[:1])
+	} else {
+		for _, c := range copies {
+			page([]int{c})
+		}
+	}
+	b.set(root, fmt.Sprintf("<< /Type /Pages /Count %d /Kids [%s] /MediaBox [0 0 612 792] >>", len(kids), strings.Join(kids, " ")))
+	ocp := ""
+	if len(ocgs) > 0 {
+		ocp = fmt.Sprintf("/OCProperties << /OCGs [%s] /D << /Order [%s] >> >>", strings.Join(ocgs, " "), strings.Join(ocgs, " "))
+	}
+	b.set(cat, fmt.Sprintf("<< /Type /Catalog /Pages %d 0 R %s >>", root, ocp))
+	desc := kind + ":" + extra + ":" + mode
+	return b.bytes(cat), desc
+}
+
+// formDedupK: number of distinct form XObjects named by the pages after one and after two
+// optimisations, against the model's normalise-then-compare pass run twice.
+func formDedupK(r *vh.Run, doc []byte) {
+	defer func() { recover() }()
+	ctx, err := readCtx(doc)
+	if err != nil {
+		return
+	}
+	g := graph{}
+	for nr, e := range ctx.Table {
+		if e != nil && !e.Free && nr > 0 {
+			g[nr] = e.Object
+		}
+	}
+	var forms []int
+	for p := 1; p <= ctx.PageCount; p++ {
+		_, _, inh, err := ctx.PageDict(p, false)
+		if err != nil || inh == nil || inh.Resources == nil {
+			continue
+		}
+		xd, _ := ctx.DereferenceDict(inh.Resources["XObject"])
+		for _, k := range sortedKeys(xd) {
+			if ir, ok := xd[k].(types.IndirectRef); ok && subtypeOf(g[int(ir.ObjectNumber)]) == "Form" {
+				forms = append(forms, int(ir.ObjectNumber))
+			}
+		}
+	}
+	if len(forms) == 0 {
+		return
+	}
+	gs := g.ser()
+	out1, err := optimizeBytes(doc, false)
+	if err != nil {
+		return
+	}
+	out2, err := optimizeBytes(out1, false)
+	if err != nil {
+		return
+	}
+	a1, err1 := readCtx(out1)
+	a2, err2 := readCtx(out2)
+	if err1 != nil || err2 != nil {
+		return
+	}
+	impl := fmt.Sprintf("%d,%d", takeCensus(a1).DistinctPageForms, takeCensus(a2).DistinctPageForms)
+	r.Case("FormDedup", []string{gs, vh.Ints(forms), vh.Int(int64(ctx.XRefTable.MaxRecursionDepth()))}, impl)
+}
+
 // a content stream whose raw bytes are also a valid ASCIIHex body: the same Raw under two
 // different stream dictionaries
 func genRawTwinDoc(r *rand.Rand) []byte {
@@ -1626,6 +1781,106 @@ func fingerprint(ctx *model.Context) (fp []string, err error) {
 	return fp, nil
 }
 
+// census of a document: object counts and, per page, the distinct fonts / images / forms
+// its resources name
+type census struct {
+	Objects, Streams, Fonts, Images, Forms int
+	PageFonts, PageImages, PageForms       []int
+	DistinctPageForms                      int
+}
+
+// diff names the most specific census entry that differs.
+func (a census) diff(b census) string {
+	switch {
+	case a.Forms != b.Forms:
+		return "forms"
+	case a.Images != b.Images:
+		return "images"
+	case a.Fonts != b.Fonts:
+		return "fonts"
+	case fmt.Sprint(a.PageForms) != fmt.Sprint(b.PageForms) || a.DistinctPageForms != b.DistinctPageForms:
+		return "page-forms"
+	case fmt.Sprint(a.PageImages) != fmt.Sprint(b.PageImages):
+		return "page-images"
+	case fmt.Sprint(a.PageFonts) != fmt.Sprint(b.PageFonts):
+		return "page-fonts"
+	case a.Streams != b.Streams:
+		return "streams"
+	case a.Objects != b.Objects:
+		return "objects"
+	}
+	return ""
+}
+
+func subtypeOf(o types.Object) string {
+	if sd, ok := o.(types.StreamDict); ok {
+		if n, ok := sd.Dict["Subtype"].(types.Name); ok {
+			return string(n)
+		}
+	}
+	return ""
+}
+
+func takeCensus(ctx *model.Context) (c census) {
+	defer func() { recover() }()
+	for _, e := range ctx.Table {
+		if e == nil || e.Free {
+			continue
+		}
+		c.Objects++
+		switch o := e.Object.(type) {
+		case types.StreamDict:
+			c.Streams++
+			switch subtypeOf(o) {
+			case "Image":
+				c.Images++
+			case "Form":
+				c.Forms++
+			}
+		case types.Dict:
+			if n, ok := o["Type"].(types.Name); ok && n == "Font" {
+				c.Fonts++
+			}
+		}
+	}
+	allForms := map[int]bool{}
+	for p := 1; p <= ctx.PageCount; p++ {
+		_, _, inh, err := ctx.PageDict(p, false)
+		if err != nil || inh == nil {
+			continue
+		}
+		fonts, images, forms := map[int]bool{}, map[int]bool{}, map[int]bool{}
+		if inh.Resources != nil {
+			if fd, _ := ctx.DereferenceDict(inh.Resources["Font"]); fd != nil {
+				for _, v := range fd {
+					if ir, ok := v.(types.IndirectRef); ok {
+						fonts[int(ir.ObjectNumber)] = true
+					}
+				}
+			}
+			if xd, _ := ctx.DereferenceDict(inh.Resources["XObject"]); xd != nil {
+				for _, v := range xd {
+					if ir, ok := v.(types.IndirectRef); ok {
+						o, _ := ctx.Dereference(ir)
+						switch subtypeOf(o) {
+						case "Image":
+							images[int(ir.ObjectNumber)] = true
+						case "Form":
+							forms[int(ir.ObjectNumber)] = true
+							allForms[int(ir.ObjectNumber)] = true
+						}
+					}
+				}
+			}
+		}
+		c.PageFonts = append(c.PageFonts, len(fonts))
+		c.PageImages = append(c.PageImages, len(images))
+		c.PageForms = append(c.PageForms, len(forms))
+	}
+	c.DistinctPageForms = len(allForms)
+	return c
+}
+
 func liveObjects(ctx *model.Context) int {
 	n := 0
 	for _, e := range ctx.Table {
@@ -1712,7 +1967,7 @@ func docOracle(r *vh.Run, doc []byte, dupContent bool, kind string) {
 			return
 		}
 	}
-	// optimising the optimised document removes nothing further
+	// optimising the optimised document removes nothing further: same object census, same pages
 	out2, err := optimizeBytes(out, dupContent)
 	if err != nil {
 		r.OracleFail("optimize-twice-error", input, err.Error())
@@ -1723,11 +1978,17 @@ func docOracle(r *vh.Run, doc []byte, dupContent bool, kind string) {
 		r.OracleFail("optimize-output-unreadable", input, "second pass: "+err.Error())
 		return
 	}
-	n1, n2 := liveObjects(after), liveObjects(after2)
-	if n2 != n1 {
-		r.OracleFail("optimize-not-idempotent", input, fmt.Sprintf("live objects after first pass %d, after second %d", n1, n2))
+	c1, c2 := takeCensus(after), takeCensus(after2)
+	if what := c1.diff(c2); what != "" {
+		r.OracleFail("optimize-not-idempotent:"+what, input, fmt.Sprintf("census after first pass %+v, after second %+v", c1, c2))
 		return
 	}
+	fpA2, err := fingerprint(after2)
+	if err != nil || strings.Join(fpA2, "\n") != strings.Join(fpA, "\n") {
+		r.OracleFail("optimize-not-idempotent:fingerprint", input, "page fingerprints differ between the first and the second optimisation")
+		return
+	}
+	n1 := c1.Objects
 	if liveObjects(before) > n1 {
 		r.Count("doc:" + kind + ":shrunk")
 	}
@@ -1804,6 +2065,11 @@ func main() {
 		doc, sp := genSharedDoc(r.Rand)
 		docOracle(r, doc, r.Rand.Intn(2) == 0, fmt.Sprintf("shared%d", sp.layout))
 		consolidateK(r, doc, sp)
+	}
+	for i, n := 0, r.Pick(200, 4000); i < n; i++ {
+		doc, desc := genExtrasDoc(r.Rand)
+		docOracle(r, doc, r.Rand.Intn(2) == 0, "extras:"+desc)
+		formDedupK(r, doc)
 	}
 	mixedCycleDocOracle(r)
 	for i := 0; i < 2; i++ {
